@@ -204,5 +204,13 @@ func runC03(c *ctx, r *Report) error {
 	sort.Strings(keys)
 	r.sample(map[string]string{"file": "a.yml", "key_path": "jobs.build.container.volumes.[0]", "placeholder": "${{ (( }}"})
 	r.sample(map[string]string{"file": "b.yml", "key_path": "on.workflow_call.secrets.token.required", "placeholder": "${{ a b }}"})
-	return nil
+	// AL.Props.C03Step: in the model every key's value of a (script or action) step reaches the field named after the key in
+	// every key order; a step whose node lacks a value the model keeps has lost it on the way to the checker
+	nPS := 400
+	if !c.quick {
+		nPS = 20000
+	}
+	return parseStepTie(c, r, nPS, func(cs Case) (string, string) {
+		return "step-node-differs-from-parse-rule", "the Step node / diagnostics the parser produces for this key order (" + cs.Impl + ") differ from the modelled parse rule (" + cs.Model + ")"
+	})
 }
